@@ -114,7 +114,7 @@ CHECKS = {
     },
     "C08": {
         "modules": ["rules_c08"],
-        "explanation": 'Must-pass-through rules on the MIR of SelectExecutionEngine::execute and AggregateExecutionEngine::execute_result: every emission (Row::new / push of a result Row) is reachable only through the distinct==false edge or the DistinctValues::add(..)==true edge (edge-cut reachability, so a test nested under HAVING is detected), a duplicate is never emitted, the tuple tested is the tuple emitted (provenance), the aggregate DISTINCT memory is local to one result table; DistinctValues::add is contains-then-insert on a HashSet whose element type (resolved generic argument) is the whole Vec<Value> tuple and returns false/true accordingly.',
+        "explanation": 'Must-pass-through rules on the MIR of SelectExecutionEngine::execute and AggregateExecutionEngine::execute_result: every emission (Row::new / push of a result Row) is reachable only through the distinct==false edge or the DistinctValues::add(..)==true edge (edge-cut reachability, so a test nested under HAVING is detected), a duplicate is never emitted, the tuple tested is the tuple emitted (provenance), the aggregate DISTINCT memory is local to one result table; DistinctValues::add is contains-then-insert on a HashSet whose element type (resolved generic argument) is the whole Vec<Value> tuple and returns false/true accordingly. The hand-written Eq / Ord / Hash of the REAL wrapper are re-decided here (one canonical key), because `same tuple` in the DISTINCT hash set is Value`s Eq found through Value`s Hash.',
         "trusted": ["rustc nightly MIR + trait resolution", "dependencies behave as documented"],
         "technique": 'static path-fact analysis (every path to an emission satisfies distinct==false or add()==true), must-pass-through, provenance and resolved-type rules on MIR with local helpers inlined',
         "level_text": "Decides the structural clauses of DISTINCT (where the test sits, what it is applied to, what the set stores). Value equality itself is C16's subject.",
@@ -170,7 +170,7 @@ CHECKS = {
     },
     "C03": {
         "modules": ["rules_c03"],
-        "explanation": 'Rules on the MIR of ExpressionExecutionEngine::evaluate and SelectExecutionEngine::execute: site inventory rooted at evaluate (no unchecked arithmetic, narrowing cast or panicking call on evaluated data; guards re-proved); exhaustiveness of the top-level match (no wildcard); CompareOperator -> comparison primitive arm table with operand order checked by provenance (left, right), accepting the spelling through one Ordering; NULL-test dominance of the comparison dispatch and of the IN element comparison; ArithmeticOperator -> checked_add/sub/mul/div (INT closure, no raw integer operator) and + - * / (REAL closure); AND / OR short-circuit shape; `*` expanded from ColumnProvider::keys, exactly one push per projection on every path, one Row per call. A cast parses the operand`s own text: the string handed to ValueType::parse has, by backward provenance, no string-transforming call on the way.',
+        "explanation": 'Rules on the MIR of ExpressionExecutionEngine::evaluate and SelectExecutionEngine::execute: site inventory rooted at evaluate (no unchecked arithmetic, narrowing cast or panicking call on evaluated data; guards re-proved); exhaustiveness of the top-level match (no wildcard); CompareOperator -> comparison primitive arm table with operand order checked by provenance (left, right), accepting the spelling through one Ordering; NULL-test dominance of the comparison dispatch and of the IN element comparison; ArithmeticOperator -> checked_add/sub/mul/div (INT closure, no raw integer operator) and + - * / (REAL closure); AND / OR short-circuit shape; `*` expanded from ColumnProvider::keys, exactly one push per projection on every path, one Row per call. A cast parses the operand`s own text: the string handed to ValueType::parse has, by backward provenance, no string-transforming call on the way. Literals: an ExpressionTree::Value built by the converter wraps the parse tree`s own value with no function in between.',
         "trusted": ["rustc nightly MIR + trait resolution", "dependencies behave as documented"],
         "technique": 'static site inventory, arm-table extraction through closures, operand provenance and guard-dominance rules on MIR',
         "level_text": 'Decides the operator <-> primitive tables, NULL guards, error discipline of arithmetic and the projection shape on every path. Whether each function computes its documented value is not decided.',
@@ -178,7 +178,7 @@ CHECKS = {
     },
     "C05": {
         "modules": ["rules_c05"],
-        "explanation": 'Rules on the MIR of join.rs and the converter: error discipline (results of File::open, get_table, index_for and the per-line execute reach the caller through Try::branch/FromResidual and are not swallowed by ok()/unwrap_or); the join index insert and lookup are dominated by a NOT NULL test of the key; in execute_join every partner row yields exactly one execute call and one merge on every path back to the loop header (path counting), the loop is left early only by error returns, partners are traversed as a plain slice of a Vec<Row> bucket; the OUTER row is vec![NULL; number of joined columns] on the no-partner arm under is_outer && allow_outer; transform_join maps both ON orientations consistently (field provenance of the two JoinClause constructions). The joined table is loaded in execute_joined_table on every path with a join clause, by no other caller, and the per-line entry cannot reach the load (call graph), so a missing joined file / column is an error whatever the input contains.',
+        "explanation": 'Rules on the MIR of join.rs and the converter: error discipline (results of File::open, get_table, index_for and the per-line execute reach the caller through Try::branch/FromResidual and are not swallowed by ok()/unwrap_or); the join index insert and lookup are dominated by a NOT NULL test of the key; in execute_join every partner row yields exactly one execute call and one merge on every path back to the loop header (path counting), the loop is left early only by error returns, partners are traversed as a plain slice of a Vec<Row> bucket; the OUTER row is vec![NULL; number of joined columns] on the no-partner arm under is_outer && allow_outer; transform_join maps both ON orientations consistently (field provenance of the two JoinClause constructions). The joined table is loaded in execute_joined_table on every path with a join clause, by no other caller, and the per-line entry cannot reach the load (call graph), so a missing joined file / column is an error whatever the input contains. Order: the join module never sorts / reverses / dedups a container of rows.',
         "trusted": ["rustc nightly MIR + trait resolution", "dependencies behave as documented"],
         "technique": 'static error-discipline (swallowed-result) analysis, path-fact guard analysis, path counting, key-provenance (lossy conversion) and field-type rules on MIR with local helpers inlined',
         "level_text": 'Decides the structural clauses of the join mechanism (errors reported, NULL keys excluded, every pair executed and merged once in file order, outer row shape, side mapping). The resulting set of pairs as values is not computed.',
@@ -186,7 +186,7 @@ CHECKS = {
     },
     "C04": {
         "modules": ["rules_c04"],
-        "explanation": "Rules on the MIR of aggregate_execution.rs: path counting shows that every per-column loop over the group table pushes exactly one value per group on every path (rectangular result table); the group table's field types are BTreeMap<GroupKey,..> and NULL is the first variant of Value's derived Ord; every group access in update_aggregate is addressed by (group_key.clone(), aggregate_index) unmodified (provenance); the HAVING aggregate index aggregates.len()+k is computed identically by its writer and its reader; MIN/MAX compare through Value's order for every type (no numeric-only fold); GroupAggregator::is_null only tests the running values for NULL; COUNT adds the constant 1. GroupAggregator::update_value constructs Some(value) only behind a test of the accumulated state (or hands on the Option of an accessor), so an aggregator without input publishes nothing.",
+        "explanation": "Rules on the MIR of aggregate_execution.rs: path counting shows that every per-column loop over the group table pushes exactly one value per group on every path (rectangular result table); the group table's field types are BTreeMap<GroupKey,..> and NULL is the first variant of Value's derived Ord; every group access in update_aggregate is addressed by (group_key.clone(), aggregate_index) unmodified (provenance); the HAVING aggregate index aggregates.len()+k is computed identically by its writer and its reader; MIN/MAX compare through Value's order for every type (no numeric-only fold); GroupAggregator::is_null only tests the running values for NULL; COUNT adds the constant 1. GroupAggregator::update_value constructs Some(value) only behind a test of the accumulated state (or hands on the Option of an accessor), so an aggregator without input publishes nothing. MIN / MAX store the row's value only on paths where it was established non-NULL (path facts).",
         "trusted": ["rustc nightly MIR + trait resolution", "dependencies behave as documented"],
         "technique": 'static path counting, type/impl facts, argument provenance, sibling agreement and arm-table rules on MIR',
         "level_text": 'Decides the structural clauses (rectangularity, ordering container, group isolation, index agreement, type coverage of MIN/MAX). Numerical values of aggregate cells are not computed. One engine limit pinned by the existing tests (groups without any aggregate entry are not shown) is a recorded known finding.',
